@@ -52,6 +52,7 @@ class LiveWorld:
         self.fw.log_control = lambda e: None
         self.async_orders = async_orders
         self.truthful = truthful   # the double never reports BET_TAKEN_OR_LAPSED for a bet that is still resting
+        self.stream_first = None   # callable(bets): the order stream is processed before the REST response is handled
         self.pending = []          # captured packages not yet executed
         self.fw.betfair_execution.handler = lambda p: self.pending.append(p)
         self.strategies = []
@@ -97,7 +98,10 @@ class LiveWorld:
         from flumine.exceptions import OrderUpdateError
         try:
             if kind == "cancel":
-                self.market.cancel_order(o, force=True)
+                red = None
+                if self.rng.random() < 0.4 and o.size_remaining > 1:
+                    red = self.rng.choice([1.0, round(o.size_remaining / 2, 2), round(o.size_remaining * 0.75, 2)])
+                self.market.cancel_order(o, size_reduction=red, force=True)
             elif kind == "update":
                 self.market.update_order(o, "PERSIST" if o.order_type.persistence_type == "LAPSE" else "LAPSE", force=True)
             else:
@@ -183,9 +187,13 @@ class LiveWorld:
                     sc = bet["remaining"] if bet else 0.0
                     if oc.get("partial") and bet and bet["remaining"] > 1:
                         sc = 1.0
+                    if ins.get("sizeReduction") and bet:
+                        sc = min(float(ins["sizeReduction"]), bet["remaining"])
                     if bet:
                         bet["cancelled"] += sc
                         bet["remaining"] = round(bet["remaining"] - sc, 2)
+                        if bet["remaining"] > 0 and abs(sc - bet["remaining"]) < 1e-9:
+                            bet["cancelled_equals_remaining"] = True      # see finding F21
                         if bet["remaining"] == 0:
                             bet["status"] = "EXECUTION_COMPLETE"
                     rep.update(sizeCancelled=sc, cancelledDate="2030-01-01T10:00:00.000Z")
@@ -235,6 +243,8 @@ class LiveWorld:
                 self.charged += 1
                 irs.append({"status": cs, "cancelInstructionReport": crep, "placeInstructionReport": prep})
                 reports.append((o, oc))
+        if self.stream_first is not None:
+            self.stream_first()
         if name == "CANCEL" and len(irs) > 1 and self.rng.random() < 0.5:
             self.rng.shuffle(irs)          # cancel reports may arrive in any order
         data = {"status": "SUCCESS", "marketId": self.market_id, "instructionReports": irs, "customerRef": "x"}
